@@ -145,6 +145,42 @@ def run(m, rep, tier):
                 l6.violation('cstl_hash_find:visit', 'the caller\'s visit function can be invoked for an element whose key was not compared equal to the probe key '
                              '(elements of other keys sharing the bucket would be offered)', c.loc(), {})
 
+    # L6 (result): what find reports is an element its caller's visit accepted (or the first key match when no visit was
+    # given) -- the adapter records a candidate only under that acceptance
+    pfind = mod.fn('cstl_hash_find')
+    adapters = []
+    if pfind is not None and not pfind.decl:
+        for c in pfind.all_insts():
+            if c.op == 'call':
+                adapters += [mod.fn(o[1:]) for o in c.o if isinstance(o, str) and o.startswith('@') and mod.fn(o[1:]) is not None and not mod.fn(o[1:]).decl]
+    for ad in adapters:
+        pva = Prover(ad)
+        recs = [s2 for s2 in ad.all_insts() if s2.op == 'store' and strip_bitcasts(ad, s2.o[0]) == '$0' and resolve_addr(ad, s2.o[1]).steps[-1:] == ('e',)]
+        if not recs:
+            l6.ok('%s:result' % ad.name, 'NOT DECIDED: no store of the candidate into the result slot found', floc(m, ad))
+            continue
+
+        def accepted(facts):
+            for (op, x, y) in facts:
+                xi = ad.get(x) if isinstance(x, str) else None
+                if op == 'eq' and y == 'null' and xi is not None and xi.op == 'load' and resolve_addr(ad, xi.o[0]).steps[-1:] == ('visit',):
+                    return True
+                if op == 'ne' and const_int(y) == 0 and xi is not None and xi.op == 'call' and xi.callee is None and xi.o and strip_bitcasts(ad, xi.o[0]) == '$0':
+                    return True
+            return False
+        badr = []
+        for s2 in recs:
+            ok = accepted(pva.facts_at(s2))
+            if not ok and len(s2.block.pred) >= 2:
+                ok = all(accepted(pva.fc.edge_facts(pb, s2.block)) for pb in s2.block.pred)
+            if not ok:
+                badr.append('the candidate is recorded as the result at %s before (or regardless of whether) the caller\'s visit function accepted it: '
+                            'when the visit rejects every element of that key, find reports the last one offered instead of NULL' % s2.loc())
+        if badr:
+            l6.violation('%s:result' % ad.name, '; '.join(badr), floc(m, ad), {})
+        else:
+            l6.ok('%s:result' % ad.name, 'candidate recorded only under visit == NULL or visit(e) != 0', floc(m, ad))
+
     # ---- L8 --------------------------------------------------------------------------
     l8 = rep.rule('L8', 'the bucket array is only ever grown, or cut to the bucket count read after the forced rehash', floor=2)
     setters = [g for g in mod.defined() if any(c.op == 'call' and c.callee == 'realloc' and is_load_of(g, strip_bitcasts(g, c.o[0]), 'bucket.at') for c in g.all_insts())]
